@@ -44,13 +44,17 @@ type vhnNet struct {
 	seq    [2]uint64
 	consec [2]int
 
+	// Filter, if set, is consulted first for every datagram (under mu): returning false drops
+	// it (counted under Filtered, not under Dropped). For scripted loss patterns.
+	Filter func(dir int, b []byte) bool
+
 	stop   chan struct{}
 	stopMu sync.Once
 	wg     sync.WaitGroup
 
 	// counters (read them after Stop, or under mu)
-	Sent, Dropped, Duped, Reordered, Delivered [2]int64
-	Bytes                                      [2]int64
+	Sent, Dropped, Duped, Reordered, Delivered, Filtered [2]int64
+	Bytes                                                [2]int64
 	// FaultySent counts datagrams written while the fault phase was active.
 	FaultySent [2]int64
 }
@@ -148,6 +152,9 @@ func (pc *vhnPC) WriteTo(p []byte, addr net.Addr) (int, error) {
 	copies := 1
 	if dst == nil {
 		copies = 0 // sent into the void
+	} else if n.Filter != nil && !n.Filter(dir, b) {
+		copies = 0
+		n.Filtered[dir]++
 	} else if !n.clean.Load() {
 		n.FaultySent[dir]++
 		f := n.faults
@@ -209,7 +216,7 @@ func (pc *vhnPC) Close() error {
 	return nil
 }
 
-func (pc *vhnPC) LocalAddr() net.Addr                { return net.UDPAddrFromAddrPort(pc.addr) }
+func (pc *vhnPC) LocalAddr() net.Addr              { return net.UDPAddrFromAddrPort(pc.addr) }
 func (pc *vhnPC) SetDeadline(time.Time) error      { return nil }
 func (pc *vhnPC) SetReadDeadline(time.Time) error  { return nil }
 func (pc *vhnPC) SetWriteDeadline(time.Time) error { return nil }
